@@ -204,6 +204,10 @@ def plant(variants, defs, cls, rnd, shell):
         e = chain(flatten(two), depth, fresh, defs, rnd) if depth else flatten(two)
         site["inner_chain"] = depth
         word = ("sub", [L(rnd.choice(["--w=", "-w", "w:"])), e if e[0] == "ref" else ("alt", [e, L("zz")])])
+        if e[0] == "ref" and rnd.random() < 0.4:
+            # the same definition is first referred to outside a word (where the blank is fine), then inside one
+            site["also_outside_first"] = True
+            word = ("seq", [e, word])
         put(word)
     elif cls == "unbounded":
         ph = R(rnd.choice(["UNDEF", "_"]))
